@@ -456,6 +456,9 @@ class Message:
                 pass
             else:
                 raise error.BadRequest("Payload size does not match Block1")
+        elif block1.size_exponent != 7 and len(next_block.payload) > block1.size:
+            # The last block may be shorter than the block size, not longer
+            raise error.BadRequest("Payload size does not match Block1")
         if block1.start == len(self.payload):
             self.payload += next_block.payload
             self.opt.block1 = block1
